@@ -11,6 +11,7 @@ mod geom;
 mod ops;
 mod serde_fam;
 mod conv;
+mod bigiter;
 
 use util::*;
 
@@ -41,7 +42,8 @@ fn main() {
                 18 => serde_fam::gen_c18(&mut out, tier, &mut rng),
                 19 => serde_fam::gen_c19(&mut out, tier, &mut rng),
                 20 => conv::gen_c20(&mut out, tier, &mut rng),
-                8 | 9 | 10 => iters::generate(&mut out, prop, tier, &mut rng),
+                8 | 9 => { iters::generate(&mut out, prop, tier, &mut rng); bigiter::generate(&mut out, prop, tier, &mut rng) }
+                10 => iters::generate(&mut out, prop, tier, &mut rng),
                 11 => hist::gen_c11_iter(&mut out, tier, &mut rng),
                 12 => hist::gen_c12_drain(&mut out, tier, &mut rng),
                 _ => panic!("no generator for property {prop}"),
@@ -63,6 +65,7 @@ fn main() {
                     3 => iters::replay(&mut out, hd[0], &inp),
                     4 | 5 => geom::replay(&mut out, hd[0], hd[1], &inp),
                     9 => conv::replay(&mut out, &inp),
+                    10 => bigiter::replay(&mut out, hd[0], &inp),
                     6 => ops::replay(&mut out, hd[0], &inp),
                     7 => serde_fam::replay_doc(&mut out, &inp),
                     8 => serde_fam::replay_roundtrip(&mut out, &inp),
